@@ -7,6 +7,14 @@ props = [json.loads(l)["id"] for l in open(os.path.join(ROOT, "properties.jsonl"
 
 # id -> (technique, level text, level note, design ref)
 CHECKS = {
+ "C01": ("end-to-end state monitor over the real binaries (scripted TLS targets -> gnmi_collector process -> client library + gnmi_cli processes) against an independent model of each target's final state",
+         "The real gnmi_collector and gnmi_cli are built from the working tree and run as child processes. 1-3 scripted TLS targets stream generated updates/deletes (all scalar arms, 1-3 list keys, deprecated encoding, origins empty/openconfig/custom, prefix/path splits, multi-update notifications, a sync, then a nonce sentinel); after logical quiescence the CacheClient view of every per-target and '*' STREAM subscriber and the output of gnmi_cli ONCE (group and single display, invoked by flags, -proto and -proto_file) must equal the model exactly, every streamed value must be one the target held, and each target must have received its configured request with the target stamped in. Held on the scenarios generated; the known finding D19 (origin carried in the update path) is reproduced in its own mode and classified only when the view equals exactly the origin-ignored state.",
+         "Model = generator's own record of Go scalars per index path; quiescence by sentinel; a sentinel unseen 30 s after the target handed it to the transport is an attributable violation, otherwise inconclusive; meta/ subtree excluded; no atomic notifications; tunnel targets and collector restarts out of reach.",
+         "3/C01"),
+ "C19": ("generated-input reference-model differential with 32x repetition for map order and an exhaustive pair relation over a value pool",
+         "Differential monitoring of the real path.ToStrings, path.CompletePath, the gnmi client's query -> SubscribeRequest conversion followed by wire marshal/unmarshal and server-side indexing, and value.FromScalar/ToScalar/Equal against small specifications: 10^5 (thorough 10^6) generated paths each evaluated 32 times and on deep clones, 2x10^5 (2x10^6) plain query paths, 22 Go scalar kinds, and ALL ordered pairs of a pool of 120 (600) TypedValues covering every oneof arm, no arm and nil (total, symmetric, sound). Held on everything explored except the known finding D18 (last query element ending in '/'), which is classified only when exactly that element is lost.",
+         "Trusts model.IndexPath/IndexPrefix and the DESIGN definition of a plain element; proto marshal/unmarshal stands for the wire; Equal judged for totality, symmetry and soundness only; map-order independence explored by repetition.",
+         "3/C19"),
  "C04": ("trace monitor over in-memory Subscribe streams with schedule perturbation at verif points; replay-vs-cache oracle at logical quiescence",
          "Real cache + subscribe.Server driven by one writer goroutine per target (updates with unique values, leaf/subtree deletes, re-adds, Resets) while 2-6 STREAM subscriptions start at seeded moments under seeded delays / long holds at 7 schedule points and GOMAXPROCS 2/4/16. Every subscriber's exact response sequence is judged: exactly one sync (first for updates_only), every leaf present before the call and never deleted precedes the sync, values received were written and never go backwards, and replaying the responses equals the cache's matching content once a sentinel protocol establishes logical quiescence. Held = held on the interleavings produced; the evidence counts writes that landed in each registration/walk window.",
          "One writer per target; subscription path shapes chosen so that streaming compatibility and query selection coincide; schedules perturbed, not enumerated; a sentinel undelivered for 40 s on an idle system counts as a violation.",
